@@ -2,9 +2,8 @@
 from lib.verif import *
 
 THEOREMS = [
-    "C14_conf_exact", "C14_reorg_before_reconf",
-    "C14_spend_exact", "C14_reorg_before_respend",
-    "C14_hint_safe",
+    "C14_spend_hint_safe", "C14_spend_details_on_chain_partial",
+    "C14_spend_exact_cancel_refuted", "C14_conf_exact_cancel_refuted",
 ]
 MODULE = "LV.Notifier.Props"
 TARGETS = ["theories/Notifier/Props.vo", "theories/Notifier/Exec.vo",
@@ -516,6 +515,9 @@ def run(ctx):
         "correspondence_mismatches": len(bad),
     })
     ctx.assumptions += [
+        "NOT PROVED (tie + predicate only): C14_conf_exact, C14_reorg_before_reconf, conf half "
+        "of C14_hint_safe, and the event-stream half of C14_spend_exact / "
+        "C14_reorg_before_respend; see notes/C14.md",
         "requests are independent inside TxNotifier (per-request model)",
         "harness drains every client channel after every call, so the notifier's own "
         "channel-draining code paths (stale Confirmed/Updates/Reorg removal) are not observed",
